@@ -197,7 +197,7 @@ func run(c *lib.Ctx) error {
 	}
 	c.Set("rule", "V: one case per top-level chunk evaluated by the real Evaler and by EvalChunk; distinct by rendered source; chunks that only declare variables without output or exception are not counted as non-trivial")
 
-	nprog := c.Pick(500, 8000)
+	nprog := c.Pick(800, 30000)
 	if s := os.Getenv("VERIF_C15_N"); s != "" { // development only
 		fmt.Sscan(s, &nprog)
 	}
